@@ -18,7 +18,7 @@ import math
 
 from hypothesis import strategies as st
 
-SIM_NAMES = ['x', 'x1', 'xx', 'y', 'y2', 'z', 'w', 'u', 'v', 'c1', 'inc', 'HH__F', 'GOV__T', 'BUS__SUP', 'a_b', 'x_1']
+SIM_NAMES = ['x', 'x1', 'xx', 'y', 'y2', 'z', 'w', 'u', 'v', 'c1', 'inc', 'HH__F', 'GOV__T', 'BUS__SUP', 'a_b', 'x_1', '_w', '_s1']
 CONST_NAMES = ['p', 'p2', 'alpha', 'HH__AlphaFin']
 ALIAS_NAMES = ['al', 'al2', 'same', 'HH__DEM', 'alx']
 LEAF_NAMES = ['d', 'd2', 'out', 'GOV__BAL', 'dd']
@@ -310,7 +310,7 @@ def equations_of(spec):
     return {name: rhs for name, rhs, kind in spec['eqs']}
 
 
-def solve(spec, reduction=True, max_iter=None, tol_param=None, text=None, trace_step=None, steady=None):
+def solve(spec, reduction=True, max_iter=None, tol_param=None, text=None, trace_step=None, steady=None, horizon_attr=None):
     """
     Run the real solver.  Returns (outcome, solver, exception) with outcome 'ok' or the exception class name.
     """
@@ -318,6 +318,8 @@ def solve(spec, reduction=True, max_iter=None, tol_param=None, text=None, trace_
     if text is None:
         text = render(spec)
     config = spec.get('layout', {}).get('config', 'early')
+    if horizon_attr is not None and config == 'ctor':
+        config = 'early'      # (the horizon override is read when the text is parsed: it has to be set before)
 
     def configure(es):
         for fn, f in user_funcs(spec).items():
@@ -339,6 +341,8 @@ def solve(spec, reduction=True, max_iter=None, tol_param=None, text=None, trace_
             configure(es)
         else:
             es = EquationSolver(run_equation_reduction=reduction)
+            if horizon_attr is not None:
+                es.MaxTime = horizon_attr
             if config == 'early':
                 configure(es)
             es.ParseString(text)
